@@ -13,8 +13,8 @@ import z3
 
 from pyvc import specs
 
-Z3_TIMEOUT_MS = int(os.environ.get('PYVC_Z3_TIMEOUT_MS', '30000'))
-CLI_TIMEOUT_S = int(os.environ.get('PYVC_CLI_TIMEOUT_S', '60'))
+Z3_TIMEOUT_MS = int(os.environ.get('PYVC_Z3_TIMEOUT_MS', '90000'))
+CLI_TIMEOUT_S = int(os.environ.get('PYVC_CLI_TIMEOUT_S', '240'))
 
 
 def to_smt2(ob, use_lemmas=True):
